@@ -1,5 +1,5 @@
 //! C20 — every reported range lies inside the document it refers to.
-use super::c10::{gen_broken, is_broken, sweep, BreakCfg};
+use super::c10::{gen_broken, is_broken, sweep_host, BreakCfg};
 use super::parse_common::corpus;
 use crate::engine::idehost::*;
 use crate::engine::*;
@@ -55,6 +55,28 @@ impl Conv {
 }
 
 pub struct C20;
+
+/// A host that holds `ws`, the last step being one Change with two contents for the same file.
+fn edited_host(ws: &Workspace, c: &mut Choices) -> ide::AnalysisHost {
+    let mods: Vec<usize> = (0..ws.files.len()).filter(|&i| ws.files[i].module.is_some()).collect();
+    if mods.is_empty() {
+        return build_host(ws);
+    }
+    let fi = mods[c.below(mods.len())];
+    edited_host_for(ws, fi)
+}
+
+fn edited_host_for(ws: &Workspace, fi: usize) -> ide::AnalysisHost {
+    let mut first = ws.clone();
+    first.files[fi].text = format!("{}\n// before the edit\npub fn zzbefore(zza) {{\n  zza\n}}\n", ws.files[fi].text);
+    let mut host = build_host(&first);
+    let longer = format!("{}\npub fn zzlonger(zzb, zzc) {{\n  #(zzb, zzc, \"é💣 padding padding padding\")\n}}\n", first.files[fi].text);
+    let mut change = ide::Change::default();
+    change.change_file(ide::FileId(fi as u32), std::sync::Arc::from(longer.as_str()));
+    change.change_file(ide::FileId(fi as u32), std::sync::Arc::from(ws.files[fi].text.as_str()));
+    host.apply_change(change);
+    host
+}
 
 fn check_answer(ws: &Workspace, toks: &[BTreeSet<(u32, u32)>], conv: &Conv, q: &Q, file: u32, pos: u32, a: &Answer) -> Result<u64, Failure> {
     let case = || json!({"workspace": ws_json(ws), "query": format!("{:?}", q), "file": file, "offset": pos});
@@ -149,7 +171,16 @@ impl Property for C20 {
             let conv = Conv::new(&ws);
             let interesting = is_broken(&ws) || ws.files.iter().any(|f| !f.text.is_ascii());
             let wh = hash_str(&ws_json(&ws).to_string());
-            let res = sweep(ctx, &ws, 60, &mut c, &mut |ctx, q, file, pos, a| {
+            // now and then the workspace is reached through an edit: one change that carries two
+            // successive contents of a file (what a didChange with several content changes queues),
+            // the first of them longer than the final text
+            let host = if c.chance(70) {
+                ctx.class("workspace reached through a change with two contents for one file");
+                edited_host(&ws, &mut c)
+            } else {
+                build_host(&ws)
+            };
+            let res = sweep_host(ctx, &ws, &host, 60, &mut c, &mut |ctx, q, file, pos, a| {
                 let n = check_answer(&ws, &toks, &conv, q, file, pos, a)?;
                 ctx.evals(n);
                 if n > 0 && interesting {
@@ -182,7 +213,18 @@ impl Property for C20 {
         let empty: [u8; 0] = [];
         let mut c = Choices::new(&empty);
         let conv = Conv::new(&ws);
-        let r = sweep(ctx, &ws, usize::MAX, &mut c, &mut |_, q, file, pos, a| check_answer(&ws, &toks, &conv, q, file, pos, a).map(|_| ()));
+        // the plain host, and the workspace reached through an edit of each of its modules
+        let mut hosts = vec![build_host(&ws)];
+        for fi in (0..ws.files.len()).filter(|&i| ws.files[i].module.is_some()) {
+            hosts.push(edited_host_for(&ws, fi));
+        }
+        let mut r = Ok((0, 0));
+        for host in &hosts {
+            r = sweep_host(ctx, &ws, host, usize::MAX, &mut c, &mut |_, q, file, pos, a| check_answer(&ws, &toks, &conv, q, file, pos, a).map(|_| ()));
+            if r.is_err() {
+                break;
+            }
+        }
         match r {
             Err(f) if f.sig.get("kind").map(|k| k == "panic").unwrap_or(false) => Ok(()),
             other => other.map(|_| ()),
